@@ -1111,6 +1111,7 @@ def grid_layout(context, box, bottom_space, skip_stack, containing_block,
         skip_row = 0
         skip_height = 0
     resume_at = None
+    first_row_is_forced = page_is_empty
     total_height = (
         sum(size for size, _ in rows_sizes[skip_row:]) +
         (len(rows_sizes[skip_row:]) - 1) * row_gap)
@@ -1200,9 +1201,12 @@ def grid_layout(context, box, bottom_space, skip_stack, containing_block,
         parent.position_y = child.position_y
         parent.width = width
         parent.height = height
+        # Items of the first row of an empty page have to be displayed.
+        child_page_is_empty = page_is_empty or (
+            first_row_is_forced and y == skip_row)
         new_child, child_resume_at, child_next_page = block_level_layout(
             context, child, bottom_space, child_skip_stack, parent,
-            page_is_empty, absolute_boxes, fixed_boxes)[:3]
+            child_page_is_empty, absolute_boxes, fixed_boxes)[:3]
         if new_child:
             page_is_empty = False
             # TODO: Support fragmentation in grid items.
